@@ -509,8 +509,13 @@ def mpi_from_str(s, prec):
                 z, e = z.split(']')
             else:
                 z, e = z.rstrip(']'), ''
-            a = from_str(x+y+e, prec, round_floor)
-            b = from_str(x+z+e, prec, round_ceiling)
+            lower, upper = x+y+e, x+z+e
+            # with a negative shared prefix the larger digits give the
+            # lower endpoint
+            if x.startswith('-'):
+                lower, upper = upper, lower
+            a = from_str(lower, prec, round_floor)
+            b = from_str(upper, prec, round_ceiling)
             return a, b
     else:
         a = from_str(s, prec, round_floor)
